@@ -92,7 +92,7 @@ def ids_for(style, axis, n):
     if style == 'edgews':
         # leading / trailing white space is part of an id (not in ID_STYLES: only the formats that can carry it
         # - HDF5 and JSON - enumerate it)
-        return [p + x for x in ['1 ', '2\u3000', ' 3', '4 \x1f']][:n]
+        return [p + x for x in ['1\n', '2\u3000', ' 3', '4 \x1f']][:n]      # the first one is plain text + a line feed
     raise KeyError(style)
 
 
